@@ -507,5 +507,9 @@ func TestCheck(t *testing.T) {
 	o.MaxPreempt = pre
 	o.MaxExecutions = int64(mc.Pick(r, 6000, 100000))
 	mc.Explore(t, r, o)
+	o = unparsableHeaders()
+	o.MaxPreempt = pre
+	o.MaxExecutions = int64(mc.Pick(r, 6000, 100000))
+	mc.Explore(t, r, o)
 	r.Finish(t)
 }
